@@ -8,12 +8,19 @@
 (*                 code reproduces them under the monitor)                   *)
 EXTENDS NegotiateDefs
 
+\* Full = TRUE: the whole matrix (thorough tier); FALSE: NegotiateDefs!CoreCaseSet (quick tier)
+CONSTANT Full
+ASSUME Full \in BOOLEAN
+CaseSet == IF Full THEN FullCaseSet ELSE CoreCaseSet
+
 Leads == {c \in CaseSet : ~Holds(c, Expected(c))}
 
 \* structural sanity of the transcription
 WellFormed == \A c \in CaseSet :
                 LET o == Expected(c) IN
-                  /\ o.kind = "session" /\ o.version \in V
+                  /\ o.kind \in {"session", "error"}
+                  /\ (o.kind = "session" => o.version \in V)
+                  /\ (o.kind = "error" => (c.ians \notin Legacy \cup {"honest"} \/ c.disc \in HttpDiscs))
                   /\ o.nDisc \in 0..2
                   /\ (o.nDisc = 0 => o.sentInit)
                   /\ (~ModernStr(Req(c)) <=> o.nDisc = 0)
@@ -28,12 +35,24 @@ SomeNoMutual      == \E c \in CaseSet : Mutual(c) = {}
 SomeSharedServer  == /\ \E c \in CaseSet : c.tr = "stateful" /\ c.prior = "stateless" /\ ModernRequested(c)
                      /\ \E c \in CaseSet : c.tr = "stateless" /\ c.prior = "stateful" /\ Req(c) \in Modern \cap Mutual(c)
                      /\ \E c \in CaseSet : c.tr = "statefulnosid" /\ ModernRequested(c) /\ ~ModernAvailable(c)
-\* on the SDK's own transports (no wrapper) the design satisfies the property
-UnwrappedDesignOK == \A c \in CaseSet : ~c.wrap => Holds(c, Expected(c))
+\* the peer-answer dimensions: every shape of "discovery unavailable" meets a client that asks for a modern version on
+\* every HTTP transport; every kind of initialize answer meets both a direct legacy handshake and a fall-back, and the
+\* two dimensions meet each other
+SomeHttpDisc      == \A t \in HttpTransports, d \in HttpDiscs, b \in Bodies :
+                       \E c \in CaseSet : c.tr = t /\ c.disc = d /\ c.dbody = b /\ ModernRequested(c) /\ ~ModernAvailable(c)
+SomeAnswer        == \A t \in Transports, a \in Answers \ {"honest"} :
+                       /\ \E c \in CaseSet : c.tr = t /\ c.ians = a /\ Expected(c).nDisc = 0
+                       /\ \E c \in CaseSet : c.tr = t /\ c.ians = a /\ Expected(c).nDisc > 0 /\ Expected(c).sentInit
+SomeAnswerRefused == \E c \in CaseSet : Expected(c).kind = "error" /\ Expected(c).sentInit /\ Mutual(c) = {}
+SomeAnswerOther   == \E c \in CaseSet : c.ians \in Legacy /\ Req(c) \in Legacy /\ Req(c) # c.ians /\ Expected(c).version = c.ians
+SomeCrossed       == \A d \in HttpDiscs, a \in Answers : \E c \in CaseSet : c.disc = d /\ c.ians = a /\ ModernRequested(c)
+\* on the SDK's own transports (no wrapper) with an SDK peer the design satisfies the property
+UnwrappedDesignOK == \A c \in CaseSet : (~c.wrap /\ c.ians = "honest" /\ c.disc \in JsonDiscs) => Holds(c, Expected(c))
 
 SetSeq(S) == SetToSeq(S)
 CaseJson(c) == [req |-> c.req, tr |-> c.tr, json |-> c.json, store |-> c.store, wrap |-> c.wrap,
-                adv |-> SetSeq(c.adv), disc |-> c.disc, prior |-> c.prior, early |-> c.early]
+                adv |-> SetSeq(c.adv), disc |-> c.disc, dbody |-> c.dbody, prior |-> c.prior, early |-> c.early,
+                ians |-> c.ians]
 LeadJson(c) == [c |-> CaseJson(c), exp |-> Expected(c), failed |-> SetSeq(FailedClauses(c, Expected(c))),
                 trclass |-> TrClass(c), via |-> Via(Expected(c))]
 Export == /\ ndJsonSerialize("cases.ndjson", SetSeq({CaseJson(c) : c \in CaseSet}))
@@ -42,7 +61,8 @@ Export == /\ ndJsonSerialize("cases.ndjson", SetSeq({CaseJson(c) : c \in CaseSet
 ASSUME WellFormed
 ASSUME SomeModernSession /\ SomeRenegotiated /\ SomeTwoThenInit /\ SomeExactModern /\ SomeExactLegacy
 ASSUME SomeFallback /\ SomeNoMutual /\ SomeSharedServer
-ASSUME PrintT(ToJson([cases |-> Cardinality(CaseSet), leads |-> Cardinality(Leads),
+ASSUME SomeHttpDisc /\ SomeAnswer /\ SomeAnswerRefused /\ SomeAnswerOther /\ SomeCrossed
+ASSUME PrintT(ToJson([cases |-> Cardinality(CaseSet), fullMatrix |-> Cardinality(FullCaseSet), leads |-> Cardinality(Leads),
                       unwrappedDesignOK |-> UnwrappedDesignOK,
                       leadClasses |-> SetSeq({<<TrClass(c), Via(Expected(c))>> : c \in Leads})]))
 ASSUME Export
